@@ -11,7 +11,7 @@ PROPERTY = "C09"
 RULE = ("Hypothesis RuleBasedStateMachine over a pool (<=6) of live models/configurators. Rules: create model / configurator "
         "from a generated spec; create a TWIN of a pooled object (same ids and shape but a leaf's bounds replaced by another "
         "pair with the same sum, a defaulted configurator Any replaced by the structurally identical plain Any(d, Any(rest)), "
-        "another default, or an identical copy); QUERY a pooled object (evaluate, evaluate_propositions, assume, reduce, negate, "
+        "another default, a swapped All/Any or shifted threshold under the same explicit id, or an identical copy) and re-run an object's last query on its twin; QUERY a pooled object (evaluate, evaluate_propositions, assume, reduce, negate, "
         "errors, flatten, to_json, to_text, to_short, b64 round trip, to_ge_polyhedron, tautology/contradiction/equation "
         "bounds, solve with marker/exact/None solvers; configurators also ge_polyhedron, default_prios, leafs, select, add) "
         "with drawn arguments; DERIVE a new pooled object (assume, reduce, negate, add, JSON / b64 round trip). Result oracle: "
@@ -42,6 +42,7 @@ class Entry:
         self.leaves = oracle.leaves(obj) if not oracle.is_leaf(obj) else {obj.id: oracle.bounds_tuple(obj.bounds)}
         self.comp_ids = sorted(oracle.compounds(obj)) if not oracle.is_leaf(obj) else []
         self.n_queries = 0
+        self.last_query = None
         self.alive = True
 
 
@@ -115,6 +116,7 @@ class Session:
             e = self.pool[s["idx"]]
             self._compare(e, s["query"], f"query {s['query']['q']}")
             e.n_queries += 1
+            e.last_query = s["query"]
         elif k == "derive":
             e = self.pool[s["idx"]]
             try:
@@ -234,8 +236,15 @@ def make_interp(entry, seeds, allow_compound, named=None):
     return items
 
 
-def make_query(entry, kind_i, seeds, allow_compound, named, extra_rule):
-    if entry.kind == "var":
+PROBE_MODEL = ["evaluate", "evaluate_propositions", "evaluate", "to_ge_polyhedron", "solve", "reduce", "negate", "to_json", "errors", "flags"]
+PROBE_CFG = PROBE_MODEL + ["ge_polyhedron", "select", "default_prios", "leafs", "ge_polyhedron", "select"]
+
+
+def make_query(entry, kind_i, seeds, allow_compound, named, extra_rule, probe=False):
+    if probe:
+        lst = PROBE_CFG if entry.kind == "cfg" else PROBE_MODEL
+        k = lst[kind_i % len(lst)]
+    elif entry.kind == "var":
         k = ["evaluate", "evaluate_propositions", "to_json", "to_short", "flatten"][kind_i % 5]
     elif entry.kind == "cfg" and kind_i % 3 != 0:
         k = hist.CFG_QUERIES[(kind_i // 3) % len(hist.CFG_QUERIES)]
@@ -283,6 +292,16 @@ def twin_spec(spec, variant, seeds):
                     n["k"] = "Any"
                     n["c"] = [dl[0], {"k": "Any", "id": None, "c": rest}]
                     n.pop("default")
+        return s
+    if variant == 4:
+        # same ids, different meaning: swap All<->Any / shift a threshold on the first node that allows it
+        for n in nodes:
+            if n["k"] in ("All", "Any") and n.get("id") is not None:
+                n["k"] = "Any" if n["k"] == "All" else "All"
+                return s
+            if n["k"] in ("AtLeast", "AtMost") and n.get("id") is not None:
+                n["v"] = n["v"] + 1
+                return s
         return s
     if variant == 2:
         for n in nodes:
@@ -345,7 +364,7 @@ def make_machine(tolerant):
                     return
                 self._step({"s": "create", "spec": spec})
 
-            @rule(i=st.integers(0, 50), variant=st.integers(0, 3), seeds=seeds_st)
+            @rule(i=st.integers(0, 50), variant=st.integers(0, 4), seeds=seeds_st)
             def twin(self, i, variant, seeds):
                 live = [k for k, e in enumerate(self.s.pool) if e.alive and not e.prov["chain"]]
                 if self._skip() or not live or len(self.s.live()) >= POOL_MAX:
@@ -373,6 +392,36 @@ def make_machine(tolerant):
                 if q["q"] == "add":
                     q = {"q": "ge_polyhedron"}
                 self._step({"s": "query", "idx": idx, "query": q})
+
+            @rule(i=st.integers(0, 50), variant=st.integers(0, 4), kind=st.integers(0, 200), seeds=seeds_st, order=st.booleans())
+            def twin_probe(self, i, variant, kind, seeds, order):
+                """create a twin and put the SAME query to both, in either order"""
+                live = [k for k, e in enumerate(self.s.pool) if e.alive and not e.prov["chain"] and e.kind != "var"]
+                if self._skip() or not live or len(self.s.live()) >= POOL_MAX:
+                    return
+                idx = live[i % len(live)]
+                spec = twin_spec(self.s.pool[idx].prov["spec"], [0, 4, 4, 1, 2][variant], seeds)
+                n0 = len(self.s.pool)
+                self._step({"s": "create", "spec": spec, "twin_of": idx})
+                if len(self.s.pool) <= n0 or not self.s.pool[n0].alive:
+                    return
+                q = make_query(self.s.pool[idx], kind, seeds, False, None, None, probe=True)
+                for target in ([idx, n0] if order else [n0, idx]):
+                    self._step({"s": "query", "idx": target, "query": copy.deepcopy(q)})
+
+            @rule(i=st.integers(0, 50))
+            def mirror_query(self, i):
+                """run the last query of an object on its twin / its origin with identical arguments
+                (reaches caches keyed by id + arguments instead of by definition)"""
+                pairs = [(a, b) for a, b in self.s.twin_pairs if b < len(self.s.pool) and self.s.pool[a].alive and self.s.pool[b].alive]
+                cands = [(a, b) for a, b in pairs if self.s.pool[a].last_query] + [(b, a) for a, b in pairs if self.s.pool[b].last_query]
+                if self._skip() or not cands:
+                    return
+                src, dst = cands[i % len(cands)]
+                q = copy.deepcopy(self.s.pool[src].last_query)
+                if q["q"] == "add":
+                    return
+                self._step({"s": "query", "idx": dst, "query": q})
 
             @rule(i=st.integers(0, 50), kind=st.integers(0, 200), seeds=seeds_st, extra=rule_st)
             def query(self, i, kind, seeds, extra):
@@ -466,6 +515,6 @@ def replay(case, ev):
 
 def parts(tier):
     return [
-        Part("strict", machine=make_machine(False), check=replay, quick=(6, 50), thorough=(12, 500), time_quick=40, time_thorough=900),
-        Part("tolerant", machine=make_machine(True), check=replay, quick=(2, 50), thorough=(4, 500), time_quick=40, time_thorough=900),
+        Part("strict", machine=make_machine(False), check=replay, quick=(6, 130), thorough=(12, 800), time_quick=50, time_thorough=900),
+        Part("tolerant", machine=make_machine(True), check=replay, quick=(2, 80), thorough=(4, 500), time_quick=50, time_thorough=900),
     ]
